@@ -90,3 +90,69 @@ package dns64
 //@   assert at call (middleware.ResponseWriter).WriteMsg#7: calls("(*middleware/dns64.responseWriter).filterUpstreamAAAA") == 1 && lastret("(*middleware/dns64.responseWriter).filterUpstreamAAAA", 3) > 0 ==> !arg1.AuthenticatedData
 //@   assert at call (middleware.ResponseWriter).WriteMsg#8: arg1 == lastret("(*middleware/dns64.responseWriter).synthesise") && arg1 != nil
 //@   assert at call (*middleware/dns64.responseWriter).synthesise#1: arg1 == m
+//@
+//@ # synthesised record: owner = the A record's owner handed in, type AAAA, class IN, TTL = the TTL handed in, address
+//@ # = the RFC 6052 embedding (embedIPv4, proved above) of the A record's IPv4 address
+//@ func synthesizeAAAA
+//@   requires a != nil && prefix != nil
+//@   nosafety all pre
+//@   abstract
+//@   modifies nothing
+//@   assert at return#2: result != nil && result.Hdr.Name == qname && result.Hdr.Rrtype == dns.TypeAAAA && result.Hdr.Class == dns.ClassINET && result.Hdr.Ttl == ttl && result.AAAA == lastret("middleware/dns64.embedIPv4")
+//@   assert at call middleware/dns64.embedIPv4#1: arg0 == prefix && arg1 == lastret("(net.IP).To4") && len(arg1) == 4
+//@
+//@ # the A response used as the basis of the reply (RFC 6147 5.1.6) never carries AD
+//@ func (*responseWriter).buildAResponseAsBasis
+//@   abstract
+//@   nosafety all pre
+//@   assert at return: result != nil && !result.AuthenticatedData
+//@
+//@ # synthesis (abstracting tier): the synthesised TTL is at most the negative TTL of the original AAAA reply when it
+//@ # has one (else at most 600 s), and at most every A record's TTL; every synthesised record is built from an A
+//@ # record of the secondary answer, its owner and the configured prefix; the result never carries AD
+//@ func (*responseWriter).synthesise
+//@   abstract
+//@   nosafety all pre
+//@   loop 1 invariant (lastret("middleware/dns64.negativeAAAATTL") == 0 ==> ttl <= 600) && (lastret("middleware/dns64.negativeAAAATTL") > 0 ==> ttl <= lastret("middleware/dns64.negativeAAAATTL")) && forall j int :: {addresses[j]} 0 <= j && j < rangeidx ==> ttl <= addresses[j].Hdr.Ttl
+//@   loop 2 invariant forall j int :: {addresses[j]} 0 <= j && j < len(addresses) ==> ttl <= addresses[j].Hdr.Ttl
+//@   loop 3 invariant forall j int :: {addresses[j]} 0 <= j && j < len(addresses) ==> ttl <= addresses[j].Hdr.Ttl
+//@   loop 4 invariant forall j int :: {addresses[j]} 0 <= j && j < len(addresses) ==> ttl <= addresses[j].Hdr.Ttl
+//@   assert at call middleware/dns64.synthesizeAAAA#1: arg3 <= arg1.Hdr.Ttl
+//@   assert at call middleware/dns64.synthesizeAAAA#1: arg0 == a.Hdr.Name && arg1 == a && arg2 == p.net && arg3 == ttl && (lastret("middleware/dns64.negativeAAAATTL") == 0 ==> ttl <= 600) && (lastret("middleware/dns64.negativeAAAATTL") > 0 ==> ttl <= lastret("middleware/dns64.negativeAAAATTL"))
+//@   assert at call middleware/dns64.negativeAAAATTL#1: arg0 == orig
+//@   assert at call (middleware.Queryer).Query#1: arg2.CheckingDisabled == w.req.CheckingDisabled && arg2.RecursionDesired
+//@   assert at return#7: result0 != nil && !result0.AuthenticatedData && result1 == nil
+//@   assert at return#4: result0 == lastret("(*middleware/dns64.responseWriter).buildAResponseAsBasis")
+//@   assert at return#5: result0 == lastret("(*middleware/dns64.responseWriter).buildAResponseAsBasis")
+//@
+//@ # eligibility gates (abstracting tier): the request is wrapped for synthesis (or handed to PTR translation) only
+//@ # for class IN, a client writer (not internal), RD set, CD clear, an eligible client address, type AAAA or PTR,
+//@ # and — for AAAA — a zone that is not excluded
+//@ func (*DNS64).ServeDNS
+//@   abstract
+//@   nosafety all pre
+//@   assert at call (*middleware.Chain).Materialize#1: lastret("(*middleware.Request).Qclass") == dns.ClassINET && !lastret("(middleware.ResponseWriter).Internal") && lastret("(*middleware.Request).RD") && !lastret("(*middleware.Request).CD") && lastret("(*middleware/dns64.compiled).clientEligible") && (lastret("(*middleware.Request).Qtype") == dns.TypeAAAA || lastret("(*middleware.Request).Qtype") == dns.TypePTR)
+//@   assert at call (*middleware/dns64.DNS64).handlePTR#1: lastret("(*middleware.Request).Qtype") == dns.TypePTR && calls("(*middleware.Chain).Materialize") == 1
+//@   assert at call (*sync.Pool).Get#1: lastret("(*middleware.Request).Qtype") == dns.TypeAAAA && !lastret("(*middleware/dns64.compiled).zoneExcluded") && calls("(*middleware.Chain).Materialize") == 1
+//@ func (*compiled).shouldExcludeAOnPrefix
+//@   requires c != nil
+//@   modifies nothing
+//@
+//@ # PTR translation (abstracting tier): the in-addr.arpa target is built from the IPv4 address that extractIPv4 (the
+//@ # proved inverse of the embedding) recovered under a configured prefix that contains the queried address, and that is
+//@ # not excluded under the well-known prefix; the synthesised CNAME is owned by the queried name with the fixed TTL
+//@ func (*DNS64).handlePTR
+//@   abstract
+//@   nosafety all pre
+//@   assert at call middleware/dns64.extractIPv4#1: arg0 == p.net && arg1 == addr && lastret("(*net.IPNet).Contains") && lastret("middleware/dns64.parseIP6ArpaName", 1)
+//@   assert at call middleware/dns64.inAddrArpa#1: arg0 == v4 && len(v4) != 0 && lastret("middleware/dns64.parseIP6ArpaName", 1)
+//@   assert at store dns.RR_Header.Ttl#1: value == 600
+//@   assert at call (*middleware/dns64.compiled).shouldExcludeAOnPrefix#1: arg1 == lastret("middleware/dns64.extractIPv4") && lastret("middleware/dns64.extractIPv4", 1)
+//@
+//@ # the AAAA filter (abstracting tier): a record is dropped exactly when it is an AAAA inside the exclusion set; the
+//@ # caller's message is copied before anything is removed
+//@ func (*responseWriter).filterUpstreamAAAA
+//@   abstract
+//@   nosafety all pre
+//@   assert at return#1: result3 == 0 && result0 == m
+//@   assert at return#2: result3 != 0 && result0 == lastret("(*github.com/miekg/dns.Msg).Copy") && calls("(*github.com/miekg/dns.Msg).Copy") == 1
